@@ -245,6 +245,8 @@ def classify_graph_error(e):
         return 'taskNotFound'
     if "No inbound tasks for task with 'join: all'" in m or "Not enough inbound tasks for task with 'join'" in m:
         return 'joinInbound'
+    if "cyclic 'requires'" in m:
+        return 'requiresCycle'
     return 'other:' + m[:80]
 
 
@@ -296,6 +298,54 @@ def canon_model_graph(mo, reverse):
     return out
 
 
+def inject_requires_cycle(rng, wf):
+    """cyclic-requires case classes of a reverse workflow: two tasks requiring each other, a longer cycle,
+    a cycle through task-defaults requires, a task that only names itself (accepted).  Returns the class."""
+    ts = wf['tasks']
+
+    def lst(t):
+        r = t['requires']
+        return [r] if isinstance(r, str) else list(r or [])
+    kind = rng.choice(['mutual', 'long', 'defaults', 'self'])
+    if kind in ('mutual', 'long') and len(ts) >= 2:
+        k = 2 if kind == 'mutual' else rng.randint(2, len(ts))
+        ring = rng.sample(ts, k)
+        for a, b in zip(ring, ring[1:] + ring[:1]):
+            a['requires'] = sorted(set(lst(a)) | {b['name']})
+        return 'cycle-%d' % k
+    if kind == 'defaults' and len(ts) >= 2:
+        a, b = rng.sample(ts, 2)
+        wf['defaults'] = wf['defaults'] or {'clauses': {}, 'body': {}}
+        wf['defaults']['requires'] = [a['name']]
+        a['requires'] = sorted(set(lst(a)) | {b['name']})
+        return 'cycle-defaults'
+    t = rng.choice(ts)
+    t['requires'] = sorted(set(lst(t)) | {t['name']})
+    return 'self'
+
+
+def requires_cycle(wf):
+    """independent reading: is there a cycle in requires (own + task-defaults, minus self) among existing tasks"""
+    names = [t['name'] for t in wf['tasks']]
+    dreq = wf['defaults'].get('requires') if wf['defaults'] else None
+    dreq = [dreq] if isinstance(dreq, str) else (dreq or [])
+    req = {}
+    for t in wf['tasks']:
+        r = t['requires']
+        r = [r] if isinstance(r, str) else (r or [])
+        req.setdefault(t['name'], set((set(r) | set(dreq)) - {t['name']}))
+    color = {}
+
+    def visit(x):
+        color[x] = 1
+        for y in req.get(x, ()):
+            if y in req and (color.get(y) == 1 or (color.get(y) is None and visit(y))):
+                return True
+        color[x] = 2
+        return False
+    return any(color.get(x) is None and visit(x) for x in names)
+
+
 def run_graph(ctx, st, n=None, monitor=True):
     rng = ctx.rng
     drv = ctx.driver()
@@ -303,6 +353,8 @@ def run_graph(ctx, st, n=None, monitor=True):
     wfs, args, impls = [], [], []
     for i in range(n):
         wf = G.gen_wf(rng, 'wf', wild=rng.random() < 0.7, size=rng.choice([1, 2, 2, 3, 3, 4, 5, 6]))
+        if wf['type'] == 'reverse' and rng.random() < 0.25:
+            ctx.count('graph', 'requires-case:' + inject_requires_cycle(rng, wf))
         # keep graph names distinct from YAML-special strings handled by the lang stream
         if any(t['name'] in ('1', 'true') for t in wf['tasks']):
             continue
@@ -380,6 +432,8 @@ def run_graph(ctx, st, n=None, monitor=True):
                     for x in set(r + dreq) - {t['name']}:
                         if x not in names:
                             bad = 'requirement %r of %r does not exist' % (x, t['name'])
+                if not bad and requires_cycle(wf):
+                    bad = 'requires-cycle: the tasks of the accepted reverse workflow require each other'
             if bad:
                 ctx.violation('validation accepted a workflow that is not well-formed: ' + bad,
                               {'kind': 'graph', 'wf': wf, 'dict': d}, {'kind': 'accepted-not-wellformed', 'what': bad.split(' ')[0]})
